@@ -303,13 +303,16 @@ def run(tier, only=None):
     shapes4 = (E4.QUICK if tier == "quick" else E4.THOROUGH) if (not only or "ed448" in only) else []
     from . import C07_sign as SG
     sshapes = (SG.QUICK if tier == "quick" else SG.THOROUGH) if (not only or "ed25519" in only or "sign" in only) else []
-    built = build(drivers(shapes) + E4.drivers(shapes4) + E4.replay_drivers() + (SG.drivers(sshapes) if sshapes else []),
-                  tag="C07-cut", cut=True)
+    from . import C07_sign448 as S4
+    sshapes4 = (S4.QUICK if tier == "quick" else S4.THOROUGH) if (not only or "ed448" in only or "sign" in only) else []
+    built = build(drivers(shapes) + E4.drivers(shapes4) + E4.replay_drivers() + (SG.drivers(sshapes) if sshapes else []) +
+                  (S4.drivers(sshapes4) if sshapes4 else []), tag="C07-cut", cut=True)
     hooks = Hooks(built) if shapes else None
     shooks = SG.Hooks(built) if sshapes else None
+    shooks4 = S4.Hooks(built) if sshapes4 else None
     timeout = 60 if tier == "quick" else 300
     items = [("25519", s) for s in shapes] + [("448", s) for s in shapes4] + [("sign", s) for s in sshapes] + \
-        ([("seed", None)] if sshapes else [])
+        ([("seed", None)] if sshapes else []) + [("448.sign", s) for s in sshapes4] + ([("448.seed", None)] if sshapes4 else [])
 
     def work(it):
         T.reset()
@@ -319,6 +322,10 @@ def run(tier, only=None):
             return SG.check_sign(built, shooks, it[1], timeout)
         if it[0] == "seed":
             return SG.check_fromseed(built, shooks, timeout)
+        if it[0] == "448.sign":
+            return S4.check_sign(built, shooks4, it[1], timeout)
+        if it[0] == "448.seed":
+            return S4.check_fromseed(built, shooks4, timeout)
         return E4.check_shape(built, it[1], timeout)
     res = pmap(work, items, nproc=NCPU, timeout=timeout * 20)
     obs = []
@@ -335,15 +342,22 @@ def run(tier, only=None):
                   functions_encoded=sorted(set(fn for o in obs for fn in o.functions)),
                   bounds={"shapes": [list(s) for s in shapes],
                           "sign_shapes(variant, ctx len, msg len)": [list(s) for s in sshapes],
+                          "ed448_sign_shapes(variant, ctx len, msg len)": [list(s) for s in sshapes4],
                           "build": "optimized IR with --cfg pornin_crrl_verif_cut (cut-point functions kept out of line)"},
                   stubs={"ed25519::Point::set_decode": "fresh point + status bit (C06/C19)",
                          "ModInt256::set_decode_reduce": "fresh scalar (C05)",
                          "SHA2Big::process": "uninterpreted compression function (C17)",
                          "Point::verify_helper_vartime": "fresh verdict = cofactored equation (C10/C03)",
                          "ed25519::Point::set_mulgen (signing side)": "fresh point = [n]B (C04)",
-                         "ed25519::Point::encode (signing side)": "fresh 32 bytes (C06)"},
+                         "ed25519::Point::encode (signing side)": "fresh 32 bytes (C06)",
+                         "sha3::KeccakState::process (Ed448, both sides)": "uninterpreted Keccak-f[1600] permutation; SHAKE256 = FIPS 202 sponge over it (C17)",
+                         "ed448::Scalar::set_decode_reduce (both sides)": "fresh scalar (C05)",
+                         "ed448::Point::set_mulgen (signing side)": "fresh point = [n]B (C04)",
+                         "ed448::Point::encode (signing side)": "fresh 57 bytes (C06)"},
                   assumptions=["the stubs' contracts are decided by the checks named in `stubs`",
                                "message/context lengths beyond the listed shapes follow the same code path (lengths only drive the hash buffering: C17)"],
-                  outside=["Ed448 signing side: not posed (Ed25519 from_seed / sign_raw / sign_ctx / sign_ph are)",
+                  outside=["signing side (both curves): the (r + k*s).encode() arithmetic is compared with the same library operations in a reference driver, "
+                           "its value mod L is C01/C05's subject; PrivateKey::generate / decode / encode (thin wrappers around from_seed) are not posed",
+                           "Ed448ph: the caller's 64-byte SHAKE256 pre-hash of the message is not part of sign_ph (the pre-hashed bytes are the symbolic input)",
                            "that a signature so produced is accepted: follows from the two glue claims plus the stubs' contracts, not separately decided",
                            "that the helper implements the cofactored equation (C10) and low-order handling (C03)"])
